@@ -438,9 +438,9 @@ class Model(SOCModel):
 
         formula = self.do_math(obj=True).to_socp(degree, cuts)
         if solver is None:
-            solution = def_sol(formula, display, params)
+            solution = def_sol(formula, display, params=params)
         else:
-            solution = solver.solve(formula, display, params)
+            solution = solver.solve(formula, display, params=params)
 
         if isinstance(solution, Solution):
             self.solution = solution
